@@ -91,9 +91,7 @@ func (w *World) execCommit(st *Step) *Violation {
 		w.Stats.Inc("commit.retry")
 	}
 	w.Stats.Inc("commit." + flavourName(st.Flavour))
-	if len(w.Ledger.MonitorViolations) > 0 {
-		return w.viol("ledger.monitor", "%s", w.Ledger.MonitorViolations[0])
-	}
+	// ledger monitor violations (O-LEDGER) are evaluated by the properties that own them (C03) after every step
 	w.takeSnapshot()
 	w.result("commit")
 	return nil
